@@ -325,6 +325,19 @@ func runC04(c *run.Ctx) {
 		}
 		wb = nw
 	}
+	if c.Idx%20 == 7 {
+		// two sets WITHOUT any policy or Ingress/Route that differ in their workloads only: everything is allowed on both sides, the
+		// workload that exists on one side only makes added / removed entries with the new / lost flags
+		wa = wa.Clone()
+		wa.NetPols, wa.ANPs, wa.BANP, wa.Services, wa.Ingresses, wa.Routes = nil, nil, nil, nil, nil, nil
+		wb = wa.Clone()
+		if len(wb.Workloads) > 2 && g.P(0.5) {
+			wb.Workloads = wb.Workloads[:len(wb.Workloads)-1]
+		} else {
+			wb.Workloads = append(wb.Workloads, world.Workload{Ns: wb.Workloads[0].Ns, Name: "extra", Kind: world.KDeployment, Labels: map[string]string{"app": "c"}, Ports: []world.CPort{{Num: 80}}})
+		}
+		edits = []string{"policyFreeWorkloadChange"}
+	}
 	r.Hash = wa.Hash() + wb.Hash()
 	r.Feat(edits...)
 	for _, e := range edits {
